@@ -68,6 +68,7 @@ package keeper
 // verif:pred stored(m, name) := unmarshalIface(kvget(m, host.FullClientStateKey(name)))
 
 // verif:func (Keeper).CreateClient
+//@ nopanic
 //@ modifies xibc(ctx)
 //@ callsite Initialize [initialised-as-new] recv == clientState && consState == consensusState && store == k.ClientStore(ctx, chainName)
 //@ callsite SetClientState [installs-proposed-client] chainName == dollar_chainName && dollar_clientState == clientState
@@ -77,6 +78,7 @@ package keeper
 //@ ensures [packet-state-kept] packetStateKept(old(xibc(ctx)), xibc(ctx))
 
 // verif:func (Keeper).UpgradeClient
+//@ nopanic
 //@ modifies xibc(ctx)
 //@ ensures [exists]    err == nil ==> kvhas(old(xibc(ctx)), host.FullClientStateKey(chainName))
 //@ ensures [same-type] err == nil ==> clientTypeOf(stored(old(xibc(ctx)), chainName)) == clientTypeOf(newClientState)
@@ -88,6 +90,7 @@ package keeper
 //@ ensures [packet-state-kept] packetStateKept(old(xibc(ctx)), xibc(ctx))
 
 // verif:func (Keeper).ToggleClient
+//@ nopanic
 //@ modifies xibc(ctx)
 //@ ensures [exists]         err == nil ==> kvhas(old(xibc(ctx)), host.FullClientStateKey(chainName))
 //@ ensures [different-type] err == nil ==> clientTypeOf(stored(old(xibc(ctx)), chainName)) != clientTypeOf(newClientState)
@@ -112,6 +115,8 @@ package keeper
 //@ ensures [packet-state-kept] packetStateKept(old(xibc(ctx)), xibc(ctx))
 
 // verif:func (Keeper).HandleCreateClient
+//@ ensures [client-returned] result1 == nil ==> result != nil
+//@ nopanic
 //@ modifies xibc(ctx)
 //@ ensures [unused-name] result1 == nil ==> !kvhas(old(xibc(ctx)), host.FullClientStateKey(p.ChainName))
 //@ callsite CreateClient [as-proposed] chainName == p.ChainName && ncalls("UnpackClientState") == 1 && clientState == callres("UnpackClientState", 0) && consensusState == callres("UnpackConsensusState", 0)
@@ -119,11 +124,15 @@ package keeper
 //@ ensures [reject-clean] result1 != nil && ncalls("CreateClient") == 0 ==> xibc(ctx) == old(xibc(ctx))
 
 // verif:func (Keeper).HandleUpgradeClient
+//@ ensures [client-returned] result1 == nil ==> result != nil
+//@ nopanic
 //@ modifies xibc(ctx)
 //@ callsite UpgradeClient [as-proposed] chainName == p.ChainName && newClientState == callres("UnpackClientState", 0) && newConsensusState == callres("UnpackConsensusState", 0)
 //@ ensures [errors-propagate] result1 == nil ==> ncalls("UpgradeClient") == 1 && callsok("UpgradeClient")
 
 // verif:func (Keeper).HandleToggleClient
+//@ ensures [client-returned] result1 == nil ==> result != nil
+//@ nopanic
 //@ modifies xibc(ctx)
 //@ callsite ToggleClient [as-proposed] chainName == p.ChainName && newClientState == callres("UnpackClientState", 0) && newConsensusState == callres("UnpackConsensusState", 0)
 //@ ensures [errors-propagate] result1 == nil ==> ncalls("ToggleClient") == 1 && callsok("ToggleClient")
@@ -152,3 +161,7 @@ package keeper
 //@ modifies xibc(ctx)
 // verif:func (Keeper).GetAllConsensusStates
 //@ ensures [read-only] unchanged(ctx)
+
+// verif:func (Keeper).HandleRegisterRelayer
+//@ nopanic dryrun
+//@ modifies xibc(ctx)
